@@ -31,3 +31,10 @@ PROP = {
         "on-the-wire equality is observed for the sends the harness performs (sync W / sync no-W / async / reply / forward sync+async / SendSECS2Message, Select.req, Linktest.req, Separate.req); writeFrame's choice of buffers is tied by the hook on every pure case",
     ],
 }
+
+
+MANIFEST = {
+    "text": 'Coq theorems over all inputs: E37 layout of data messages and of all nine control factories (every field at its offset; byte 2 split for all 256 values), 4-byte big-endian length prefix = 10 + body, wire buffers (what the connection hands to the socket) = ToBytes, round trip both ways at the frame cap regenerated from the source, validation iff with the error class per cause in code order, re-stamp/derive chains change only the stamped header bytes. The unbounded round trip is REFUTED by a witness (size edge, known finding C03-size-edge) and the positive theorem carries exactly the excluded class (10 + body <= cap). Tied by translator bridges (IsValidSType, MsgType constants, cap), an extracted-model differential over the public API and the buildFrameBuffers hook, and frames captured by a raw peer from a real hsmsss connection.',
+    "note": 'Body modelled as its encoded bytes (C01 owns the item codec); round trip is up to the local reply-expected flag of control messages (not on the wire); on-the-wire half observed for the sends performed; 16 MB cases in the thorough tier.',
+    "technique": 'Rocq/Coq proof on an executable model + translator bridge + extracted-model differential + raw-peer net.Pipe capture',
+}
